@@ -10,8 +10,8 @@ CONSTANTS
   MaxBatches = 2
   MaxBatchOps = 3
   Stops = {0}
-  Muts = {FALSE, TRUE}
-  Ops = {"Get", "Has", "Set", "Delete", "DeletePrefix", "Clear", "Flush", "Close", "Batched", "Iterate", "BSet", "BDelete", "Cancel", "Commit"}
+  Muts = {TRUE}
+  Ops = {"Get", "Set", "Delete", "DeletePrefix", "Clear", "Close", "Batched", "Iterate", "BSet", "BDelete", "Cancel", "Commit"}
 VIEW View
 INVARIANTS TypeOK ClosedOK NotClosedOK GetOK HasOK SetOK IterOK StOK
 PROPERTIES Isolation ReadOnly DeleteExact SetDelete BatchLastOp CancelNothing
